@@ -118,6 +118,7 @@ PadsOdd(fmt) == Major(fmt) \in {M_WAV, M_WAVEX, M_RF64, M_AIFF, M_SVX, M_VOC}
 ExactRate(fmt) == Major(fmt) \in {M_WAV, M_WAVEX, M_RF64, M_W64, M_AIFF, M_AU, M_CAF, M_NIST, M_PAF, M_PVF, M_MAT4, M_MAT5, M_AVR}
 
 \* containers that record the byte order of the data, so that re-opening reports it (C04)
-Sane(info) == /\ info.ch >= 1 /\ info.ch <= 1024 /\ info.rate >= 1 /\ info.fr >= 0 /\ info.frbig = 0
+\* (frames are logged clamped to 2^31-1 with frbig = 1 for larger counts -- a pipe of unknown length reports SF_COUNT_MAX -- and frneg = 1 for negative ones)
+Sane(info) == /\ info.ch >= 1 /\ info.ch <= 1024 /\ info.rate >= 1 /\ info.fr >= 0 /\ info.frneg = 0
               /\ info.sec >= 1 /\ Major(info.fmt) \in KnownMajors /\ Sub(info.fmt) \in KnownSubs
 =============================================================================
